@@ -136,7 +136,17 @@ def main():
             if kind == "seeded":
                 good = res.get(want, {}).get("rc") == 1
                 caught = [p for p, v in res.items() if v["rc"] == 1]
-                print("%-8s %-40s %s  (expected violation in %s; violations in %s) %s" % (kind, name, "CAUGHT" if good else "MISSED", want, caught or "-", res.get(want, {}).get("keys", [])[:1]))
+                verdict = "CAUGHT" if good else "MISSED"
+                try:
+                    meta_ = json.load(open(os.path.join(VERIF, "seeded", name, "meta.json")))
+                except Exception:
+                    meta_ = {}
+                if meta_.get("detect") is False:
+                    # a documented limit of the technique (DESIGN.md): the seed stays in the corpus so that a later rule
+                    # that does catch it is noticed; it does not count as a failure of the self-test
+                    verdict = "CAUGHT (documented as out of reach: update meta.json)" if good else "NOT-DETECTED (documented limit)"
+                    good = True
+                print("%-8s %-40s %s  (expected violation in %s; violations in %s) %s" % (kind, name, verdict, want, caught or "-", res.get(want, {}).get("keys", [])[:1]))
             else:
                 bad = [p for p, v in res.items() if v["rc"] == 1]
                 inc = [p for p, v in res.items() if v["rc"] == 2]
